@@ -111,15 +111,14 @@ pub fn f1_step<const M: usize, const TOTAL: usize, const CUT: bool>() {
                 // every request the arena made honours the limit and the alignment floor
                 // (checked at one symbolic log index = at every index)
                 let i: usize = kani::any();
-                kani::assume(i < NLOG && i < LOGN);
+                if i < NLOG && i < LOGN {
                 let (rs, ra) = LOG[i];
                 assert!(NLOG <= LOGN, "[C09] more requests than the log holds");
                 assert!(ra >= 16 && ra >= align && ra >= M, "[C04] chunk alignment floor");
                 assert!(rs >= FOOTER_SIZE && rs - FOOTER_SIZE >= size, "[C01] chunk smaller than the request");
                 if let Some(l) = limit {
-                    if ab0 <= l {
-                        assert!(rs - FOOTER_SIZE <= l - ab0, "[C07] requested chunk exceeds the limit");
-                    }
+                    assert!(ab0 <= l && rs - FOOTER_SIZE <= l - ab0, "[C07] requested chunk exceeds the limit");
+                }
                 }
             }
         }
